@@ -164,6 +164,7 @@ fn child(args: &Args) {
     }));
     let mut out = Out::new();
     downcast_probes(&mut out);
+    reload_span_events_probe(&mut out);
     if args.get("part") == Some("mini") {
         // small slice for the interpreter layer: the probes above + a few short histories
         let sz = sizes(args.tier);
@@ -555,6 +556,63 @@ fn child_names(args: &Args, out: &mut Out) {
             }
         }
         out.distinct_str(&format!("names|{compact}|{}", (base + round * THREADS) / 64));
+    }
+}
+
+/// Span lifecycle records follow the configuration in force when the lifecycle point is
+/// reached: a span created before `FmtSpan::CLOSE` (or `NEW`..) was switched on through a reload
+/// handle still gets its one close record - with and without timestamps, full and compact.
+fn reload_span_events_probe(out: &mut Out) {
+    for variant in 0..4u32 {
+        let sink = RecSink::new(11);
+        let timed = variant & 1 == 0;
+        let desc = format!("fmt::subscriber(){}{} behind reload::Subscriber, set_span_events(CLOSE) after the span was created", if variant & 2 != 0 { ".compact()" } else { "" }, if timed { "" } else { ".without_time()" });
+        let mut problems: Vec<String> = vec![];
+        macro_rules! drive {
+            ($sub:expr) => {{
+                let (sub, handle) = tracing_subscriber::reload::Subscriber::new($sub);
+                let d = Dispatch::new(tracing_subscriber::registry().with(sub));
+                tracing::dispatch::with_default(&d, || {
+                    set_opctx(0, 0);
+                    let old = tracing::info_span!("c13_old_span", k = 1u64);
+                    {
+                        let _e = old.enter();
+                    }
+                    if !sink.take().iter().all(|r| !matches!(r.kind, RecKind::Write(_))) {
+                        problems.push("a span lifecycle record was written although no span events are configured".into());
+                    }
+                    if handle.modify(|s| s.set_span_events(FmtSpan::CLOSE)).is_err() {
+                        problems.push("reload handle refused modify".into());
+                    }
+                    let newer = tracing::info_span!("c13_new_span", k = 2u64);
+                    drop(old);
+                    let w: Vec<String> = sink.take().into_iter().filter_map(|r| if let RecKind::Write(b) = r.kind { Some(String::from_utf8_lossy(&b).to_string()) } else { None }).collect();
+                    if w.len() != 1 || !w[0].contains("k=1") || !w[0].contains("close") || !w[0].ends_with('\n') {
+                        problems.push(format!("closing the span created BEFORE the switch wrote {w:?}, expected exactly one close record showing the span's field k=1"));
+                    }
+                    drop(newer);
+                    let w: Vec<String> = sink.take().into_iter().filter_map(|r| if let RecKind::Write(b) = r.kind { Some(String::from_utf8_lossy(&b).to_string()) } else { None }).collect();
+                    if w.len() != 1 || !w[0].contains("k=2") || !w[0].contains("close") || !w[0].ends_with('\n') {
+                        problems.push(format!("closing the span created AFTER the switch wrote {w:?}, expected exactly one close record showing the span's field k=2"));
+                    }
+                });
+            }};
+        }
+        match (variant & 2 != 0, timed) {
+            (false, true) => drive!(tracing_subscriber::fmt::subscriber().with_ansi(false).with_writer(sink.clone())),
+            (false, false) => drive!(tracing_subscriber::fmt::subscriber().with_ansi(false).without_time().with_writer(sink.clone())),
+            (true, true) => drive!(tracing_subscriber::fmt::subscriber().compact().with_ansi(false).with_writer(sink.clone())),
+            (true, false) => drive!(tracing_subscriber::fmt::subscriber().compact().with_ansi(false).without_time().with_writer(sink.clone())),
+        }
+        out.evals += 1;
+        out.count("span_events_switched_on_through_a_reload_handle", 1);
+        if !problems.is_empty() {
+            out.violation(
+                "span lifecycle records after the span events were changed through a reload handle: not exactly one record per configured lifecycle point",
+                json!({"configuration": desc, "problems": problems}),
+            );
+            return;
+        }
     }
 }
 
